@@ -104,6 +104,25 @@ def run_impl(c):
                 out[key] = "ok"
             except Exception as e:
                 out[key] = type(e).__name__
+        # both annotations declared and both validations requested, on acyclic graphs whose edges stay inside the node list; the
+        # tracklet annotation is correct (maximal unbranched paths), so the outcome must be the lineage verdict
+        from harness.c13 import reference_partition
+        from harness.tracks_gen import is_dag
+
+        idx = {x: i for i, x in enumerate(c["nodes"])}
+        if all(a in idx and b in idx for a, b in c["edges"]) and is_dag(len(idx), [(idx[a], idx[b]) for a, b in {tuple(e) for e in c["edges"]}]):
+            trk = {}
+            for k, cc in enumerate(sorted(reference_partition(c["nodes"], c["edges"]), key=lambda s: min(s))):
+                for x in cc:
+                    trk[x] = k
+            md2 = GeffMetadata(directed=True, node_props_metadata={}, edge_props_metadata={}, track_node_props={"tracklet": "trk", "lineage": "lin"})
+            g2 = dict(g, metadata=md2, node_props={"lin": {"values": labels, "missing": None},
+                                                   "trk": {"values": np.array([trk[x] for x in c["nodes"]], dtype="int64"), "missing": None}})
+            try:
+                validate_data(g2, ValidationConfig(tracklet=True, lineage=True))
+                out["data_both"] = "ok"
+            except Exception as e:
+                out["data_both"] = type(e).__name__
     return out
 
 
@@ -132,6 +151,9 @@ def oracle(c, o):
             return Failure(c, o, f"validate_data(lineage=True) gives {o['data']} but validator says valid={o['valid']}", {"why": "wiring"})
         if o["data_off"] != "ok":
             return Failure(c, o, f"lineage validation disabled but validate_data raised {o['data_off']}", {"why": "disabled-raises"})
+        if "data_both" in o and ((o["data_both"] == "ok") != o["valid"] or o["data_both"] not in ("ok", "ValueError")):
+            return Failure(c, o, f"validate_data(tracklet=True, lineage=True) with a correct tracklet annotation gives {o['data_both']} "
+                           f"but the lineage annotation is valid={o['valid']}", {"why": "wiring-both"})
     return None
 
 
